@@ -321,16 +321,20 @@ Theorem C19_conv_rs_matches_model dbg w lg : 0 <= lg -> w = 2 ^ lg ->
     match NumConv.I_to_uint dbg pb w ds with Ret r => Done r | Panic => Panicked end.
 Proof. exact (conv_C19_match_model dbg w lg). Qed.
 Print Assumptions C19_conv_rs_matches_model.
-(* ---- tie to the source, FromPrimitive: from_u64 / from_u128 of `impl FromPrimitive for $BUint<N>` (/repo/src/buint/numtraits.rs),
+(* ---- tie to the source, FromPrimitive: from_u64 / from_u128 / from_i64 / from_i128 of `impl FromPrimitive for $BUint<N>` (/repo/src/buint/numtraits.rs),
    from_uint! (from_u8 .. from_usize) and from_int! (from_i8 .. from_isize) of `impl FromPrimitive for $BInt<N>`
    (/repo/src/bint/numtraits.rs; one invocation `(<t>, from_<t>)` per type, checked), REGENERATED on every run, compute exactly the
-   model's U_from_uN (pb = 64 / 128) / I_from_uN / I_from_iN, for both values of the debug flag and a budget >= pb. ---- *)
+   model's U_from_uN / U_from_iN (pb = 64 / 128) / I_from_uN / I_from_iN, for both values of the debug flag and a budget >= pb. ---- *)
 Theorem C19_conv_from_rs_matches_model dbg w lg : 0 <= lg -> w = 2 ^ lg ->
   forall n int,
   (forall fuel, (64 <= fuel)%nat -> ConvGen.U_from_u64 w (Z.of_nat n) fuel int =
      match NumConv.U_from_uN dbg 64 w n int with Ret r => Done r | Panic => Panicked end) /\
   (forall fuel, (128 <= fuel)%nat -> ConvGen.U_from_u128 w (Z.of_nat n) fuel int =
      match NumConv.U_from_uN dbg 128 w n int with Ret r => Done r | Panic => Panicked end) /\
+  (forall fuel, (64 <= fuel)%nat -> ConvGen.U_from_i64 w (Z.of_nat n) fuel int =
+     match NumConv.U_from_iN dbg 64 w n int with Ret r => Done r | Panic => Panicked end) /\
+  (forall fuel, (128 <= fuel)%nat -> ConvGen.U_from_i128 w (Z.of_nat n) fuel int =
+     match NumConv.U_from_iN dbg 128 w n int with Ret r => Done r | Panic => Panicked end) /\
   (forall pb fuel, 0 < pb -> (Z.to_nat pb <= fuel)%nat -> ConvGen.I_from_uint w (Z.of_nat n) fuel pb int =
      match NumConv.I_from_uN dbg pb w n int with Ret r => Done r | Panic => Panicked end) /\
   (forall pb fuel, 0 < pb -> (Z.to_nat pb <= fuel)%nat -> ConvGen.I_from_int w (Z.of_nat n) fuel pb int =
